@@ -27,7 +27,9 @@ PLAN = {
     },
     "C05": {
         "quick": [S("hook-default"), S("m3-none", tag="tables"), S("m6-static-ssse3", tag="half-table", only="dev1"), S("m7-static-sse41", tag="quarter-table", only="dev1"),
-                  S("m4-embedded-min", tag="min-table", only="dev1")],
+                  S("m4-embedded-min", tag="min-table", only="dev1"),
+                  # the scalar body decoders of the reduced tables exist only when SIMD hex parsing is off
+                  S("t-dec-half-nosimdhex", tag="half-nosimd", only="dev1"), S("t-dec-quarter-nosimdhex", tag="quarter-nosimd", only="dev1")],
         "thorough": [S("hook-default"), S("m3-none", tag="tables"), S("m4-embedded-min", tag="min"),
                      S("t-dec-half-nosimdhex", tag="half"), S("t-dec-quarter-nosimdhex", tag="quarter"), S("t-dec-min-simdparse", tag="min-simd")],
     },
